@@ -1,4 +1,4 @@
-import MitmVerif.Model.C27
+import MitmVerif.Model.C27_Async
 import Driver.Proto
 open MitmVerif Driver
 open MitmVerif.C25 MitmVerif.C27
@@ -75,6 +75,8 @@ structure DS where
   cb : Option Cfg := none
   sa : State := {}
   sb : State := {}
+  aa : AState := {}          -- the same layer behind `Layer.handle_event` (asynchronous hook completion)
+  ab : AState := {}
 
 def evStep (s : DS) (ev : Ev) : DS × String :=
   match s.ca, s.cb with
@@ -84,6 +86,16 @@ def evStep (s : DS) (ev : Ev) : DS × String :=
     let a := showOuts ra.2
     let b := showOuts rb.2
     ({ s with sa := ra.1, sb := rb.1 }, if a = b then a else "idna-miss")
+  | _, _ => (s, "bad-op")
+
+def aStep (s : DS) (e : AEv) : DS × String :=
+  match s.ca, s.cb with
+  | some ca, some cb =>
+    let ra := astep ca s.aa e
+    let rb := astep cb s.ab e
+    let a := showOuts ra.2
+    let b := showOuts rb.2
+    ({ s with aa := ra.1, ab := rb.1 }, if a = b then a else "idna-miss")
   | _, _ => (s, "bad-op")
 
 def stepLine (s : DS) (line : String) : DS × String :=
@@ -98,13 +110,20 @@ def stepLine (s : DS) (line : String) : DS × String :=
       | some aa, some ab, some cs =>
         if (tcp = "0" ∨ tcp = "1") ∧ (up = "0" ∨ up = "1") then
           ({ ca := some ⟨ia, tcp = "1", up = "1"⟩, cb := some ⟨ib, tcp = "1", up = "1"⟩,
-             sa := C27.init aa cs, sb := C27.init ab cs }, "ok")
+             sa := C27.init aa cs, sb := C27.init ab cs,
+             aa := { σ := C27.init aa cs }, ab := { σ := C27.init ab cs } }, "ok")
         else (s, "bad-op")
       | _, _, _ => (s, "bad-op")
   | ["c", h] => match hexOr h with | some d => evStep s (.clientData d) | none => (s, "bad-op")
   | ["s", h] => match hexOr h with | some d => evStep s (.serverData d) | none => (s, "bad-op")
   | ["cc"] => evStep s .clientClose
   | ["sc"] => evStep s .serverClose
+  | ["a", "c", h] => match hexOr h with | some d => aStep s (.arrive (.clientData d)) | none => (s, "bad-op")
+  | ["a", "s", h] => match hexOr h with | some d => aStep s (.arrive (.serverData d)) | none => (s, "bad-op")
+  | ["a", "cc"] => aStep s (.arrive .clientClose)
+  | ["a", "sc"] => aStep s (.arrive .serverClose)
+  | ["a", "done"] => if s.aa.paused.isSome then aStep s .complete else (s, "not-paused")
+  | ["a", "idle?"] => (s, if s.aa.paused.isSome then "paused" else if s.aa.queue.isEmpty then "idle" else "queued")
   | _ => (s, "bad-op")
 
 end C27Drv
